@@ -1,6 +1,7 @@
 package main
 
 import (
+	"sort"
 	"fmt"
 	"go/ast"
 	"go/constant"
@@ -510,6 +511,24 @@ func (x *Exec) resolveName(fr *Frame, hdr *ssa.BasicBlock, name string, st *Stat
 		if nst == nil {
 			unsup("prev() helper does not return")
 		}
+		// ghost rows made by the helper (Snap) must exist in the live state: the
+		// helpers are evaluated eagerly at the loop head, where the live state
+		// still has the head's components
+		for k, v := range nst.heap {
+			hv := head.heap[k]
+			if hv == v {
+				continue
+			}
+			if cur, ok := st.heap[k]; !ok || cur == hv {
+				st.heap[k] = v
+			} else {
+				unsup("prev() helper with Snap evaluated after the state changed")
+			}
+		}
+		if nst.alloc != head.alloc {
+			st.alloc = nst.alloc
+			head.alloc = nst.alloc
+		}
 		if x.oldCache == nil {
 			x.oldCache = map[string]Value{}
 		}
@@ -772,10 +791,33 @@ func (x *Exec) enterLoop(fr *Frame, lp *loop, st *State) {
 	}
 	if ls != nil && len(ls.stepSSA) > 0 {
 		ls.headState = st.clone()
-		delete(x.oldCache, "")
 		for k := range x.oldCache {
 			if strings.HasPrefix(k, "@") {
 				delete(x.oldCache, k)
+			}
+		}
+		// evaluate every prev() helper of the contract now (see resolveName)
+		if x.target != nil {
+			var ords []int
+			for n := range x.target.Loops {
+				ords = append(ords, n)
+			}
+			sort.Ints(ords)
+			for _, n := range ords {
+				o := x.target.Loops[n]
+				var fns []string
+				for fnName := range o.paramsOf {
+					fns = append(fns, fnName)
+				}
+				sort.Strings(fns)
+				for _, fnName := range fns {
+					for _, nm := range o.paramsOf[fnName] {
+						if strings.HasPrefix(nm, "old:@") {
+							x.resolveName(fr, hdr, nm, st)
+							ls.headState.heap, ls.headState.alloc = st.clone().heap, st.alloc
+						}
+					}
+				}
 			}
 		}
 	}
